@@ -98,4 +98,34 @@ void h_OPEN_TYPE_oer_get(void) {
 	if(rv.code == RC_OK) __CPROVER_assert(obj.value.present == sel_idx && rv.consumed <= size, "C18: success selects the variant");
 }
 
+/* oer_open_type_get on its own: the contained value is released on failure with the method that matches who allocated it */
+static int inner_code; static void *inner_alloc; static int free2_calls; static enum asn_struct_free_method free2_method;
+static asn_dec_rval_t stub_oer2(const asn_codec_ctx_t *c, const asn_TYPE_descriptor_t *td, const asn_oer_constraints_t *ct, void **sptr, const void *buf, size_t size) {
+	asn_dec_rval_t rv; (void)c; (void)td; (void)ct; (void)buf;
+	if(!*sptr) { *sptr = inner_alloc = malloc(8); if(!*sptr) { rv.code = RC_FAIL; rv.consumed = 0; return rv; } }
+	rv.code = (enum asn_dec_rval_code_e)inner_code; rv.consumed = size;
+	return rv;
+}
+static void stub_free2(const asn_TYPE_descriptor_t *td, void *p, enum asn_struct_free_method m) {
+	(void)td; free2_calls++; free2_method = m;
+	if(p && m == ASFM_FREE_EVERYTHING) free(p);
+}
+void h_oer_open_type_get(void) {
+	VF_BYTES(buf, 12); VF_SCALAR(size_t, size); VF_SCALAR(int, code); VF_SCALAR(int, prealloc);
+	__CPROVER_assume(size <= 12 && code >= 0 && code <= 2);
+	inner_code = code;
+	asn_TYPE_operation_t op; memset(&op, 0, sizeof(op)); op.oer_decoder = stub_oer2; op.free_struct = stub_free2;
+	asn_TYPE_descriptor_t td; memset(&td, 0, sizeof(td)); td.name = "Inner"; td.op = &op;
+	long storage = 0;
+	void *sptr = prealloc ? (void *)&storage : (void *)0;
+	ssize_t r = oer_open_type_get(0, &td, 0, &sptr, buf, size);
+	VF_CANARY();
+	__CPROVER_assert(r >= -1 && (r <= 0 || (size_t)r <= size), "C04: consumed <= size");
+	if(r == -1 && free2_calls) {
+		__CPROVER_assert(free2_calls == 1 && sptr == 0, "C18/C14: a failed open type value is released once and the pointer cleared");
+		__CPROVER_assert(free2_method == (prealloc ? ASFM_FREE_UNDERLYING_AND_RESET : ASFM_FREE_EVERYTHING), "C14: caller-provided storage is reset, decoder-allocated storage is freed");
+	}
+	if(r > 0 && !prealloc) free(sptr);
+}
+
 VF_NATIVE_MAIN
